@@ -103,10 +103,15 @@ def run(L, rep, tier, seed):
         smuggled = K(b'GET /smuggled HTTP/1.1\r\nHost: c\r\n\r\n')
         data += smuggled
         cv = Conv(S, ctx, data, end='eof')
-        sc = lambda m: {'kind': 'conversation', 'class': cls, 'position': pos, 'text': model_bytes(m, data).decode('latin1')}
+        pred = {}
+        sc = lambda m: dict({'kind': 'conversation', 'class': cls, 'position': pos, 'text': model_bytes(m, data).decode('latin1'),
+                             'mode': 'hold_first' if pos == 1 else 'respond_all'}, **({'predicted': dict(pred)} if pred else {}))
         reqs = drive(cv, hold=lambda i, rq: (pos == 1 and i == 0))
         urls = [r['url'].concrete() for r in reqs]
         ctx.event('witness', cls)
+        pred['urls'] = [u.decode('latin1') if u is not None else None for u in urls]
+        if cv.blocked is None:
+            pred['codes'] = [r.get('status') for r in (cv.responses() or [])]
         delivered_victim = b'/victim' in urls
         delivered_smuggled = b'/smuggled' in urls
         first_ok = (pos == 0) or (urls[:1] == [b'/first'])
